@@ -885,3 +885,71 @@ func c19TimeoutArmedOnce(c *Ctx, rule string, run *ssa.Function) {
 		c.R.Break(rule + ": no timer, timeout channel or deadline made from a step's Timeout found in Session.Run")
 	}
 }
+
+// c08Wrappers: C08-R1 (core).  Step attaches the events of whatever Execution it is handed, whether or not an error
+// comes with it; so the contract "an error comes without an Execution" has to hold for every layer between the
+// interpreter and Step: the function that ActionSource.Compile builds and FuncAction.Exec.  Each of their returns has
+// a nil error, a nil Execution, or hands on both results of one and the same call.
+func c08Wrappers(c *Ctx, rule string) {
+	var fns []*ssa.Function
+	if f := c.P.Func("core", "FuncAction", "Exec"); f != nil {
+		fns = append(fns, f)
+	}
+	if f := c.P.Func("core", "ActionSource", "Compile"); f != nil {
+		for _, g := range ssau.WithAnon(f) {
+			if g != f && g.Signature.Results().Len() == 2 && ssau.TypeIs(g.Signature.Results().At(0).Type(), prog.Abs("core"), "Execution") {
+				fns = append(fns, g)
+			}
+		}
+	}
+	if len(fns) < 2 {
+		c.R.Break(rule+": expected FuncAction.Exec and the function built by ActionSource.Compile, found %d", len(fns))
+		return
+	}
+	for _, f := range fns {
+		c.R.Fn(fname(f))
+		n := 0
+		for _, b := range f.Blocks {
+			ret, ok := b.Instrs[len(b.Instrs)-1].(*ssa.Return)
+			if !ok || len(ret.Results) != 2 {
+				continue
+			}
+			n++
+			exe, err := ret.Results[0], ret.Results[1]
+			okR := provablyNil(err, b) || provablyNil(exe, b)
+			if !okR {
+				// the pair of one call, handed on as it is
+				e0, is0 := exe.(*ssa.Extract)
+				e1, is1 := err.(*ssa.Extract)
+				if is0 && is1 && e0.Tuple == e1.Tuple && e0.Index == 0 && e1.Index == 1 {
+					okR = true
+				}
+			}
+			if !okR {
+				// an Execution that is only returned where the error is known to be nil
+				okR = true
+				for _, d := range phiEdgesWithBlocks(err, b) {
+					if ssau.IsNilConst(d.v) {
+						continue
+					}
+					// on this edge the error may be set: the execution must be nil on it, or the error the partner of the execution
+					for _, de := range phiEdgesWithBlocks(exe, b) {
+						if ssau.IsNilConst(de.v) {
+							continue
+						}
+						if d.b != de.b && len(phiEdgesWithBlocks(exe, b)) > 1 {
+							continue
+						}
+						e0, is0 := de.v.(*ssa.Extract)
+						e1, is1 := d.v.(*ssa.Extract)
+						if is0 && is1 && e0.Tuple == e1.Tuple {
+							continue
+						}
+						okR = false
+					}
+				}
+			}
+			c.R.Check(okR, rule, fmt.Sprintf("%s: return #%d keeps 'an error comes without an Execution'", fname(f), n), c.pos(ret), "nil error, nil Execution, or both results of one call handed on", "a layer between the interpreter and Step can return an Execution together with an error of its own: Step attaches that Execution's events, so a failing action's emissions become visible")
+		}
+	}
+}
